@@ -76,9 +76,7 @@ def validate(ctx, cases):
             ctx.violation(dict(input=c["ops"]), "total", r)
             continue
         traces.append(dict(id=c["id"], ops=c["ops"], snaps=r["obs"]["snaps"], every=c.get("every", True)))
-    path = ctx.work + "/trace_c09.ndjson"
-    vlib.write_ndjson(path, traces)
-    t = ctx.tlc("Trace_C09", "Trace_C09.cfg", env=dict(VERIF_TRACE=path), timeout=1800, xss="512m")
+    t = ctx.tlc_trace("Trace_C09", "Trace_C09.cfg", traces, timeout=3000, xss="512m")
     if t.tuples("REJECTED") or not t.ok:
         raise vlib.Infra("Trace_C09 did not consume the trace: %s" % (t.error or t.tuples("REJECTED")))
     ctx.cov["traces_validated_against_impl"] += len(traces)
@@ -100,6 +98,11 @@ def run(ctx):
         raise vlib.Infra("MC_C09 reports an error on the model: %s" % mc.error)
     exported = mc.json_lines()
     ctx.log("MC_C09: %d distinct states, %d histories exported" % (mc.distinct, len(exported)))
+    cap = 20000 if quick else 150000
+    if len(exported) > cap:    # every history was checked on the model; a seeded sample is replayed on the real mapper
+        ctx.rng.shuffle(exported)
+        ctx.notes.append("%d of %d exported histories replayed on the real SourceMapper" % (cap, len(exported)))
+        exported = exported[:cap]
     cases = [dict(id="mc%d" % i, ops=e["ops"], every=True) for i, e in enumerate(exported)]
     cases += random_histories(ctx, 300 if quick else 3000, 40 if quick else 200)
     cases += vlq_histories(-(2 ** 12), 2 ** 12, 16) if quick else vlq_histories(-(2 ** 20), 2 ** 20, 32)
